@@ -71,6 +71,7 @@ type tcase struct {
 	cfgs    []string
 	results []result
 	tags    map[string]bool
+	noguard bool // the non-finite family runs the real tests unguarded (a hang becomes a crash line)
 }
 
 var errCustom = errors.New("boom: custom")
@@ -119,6 +120,17 @@ func (tc *tcase) hasNaNInput() bool {
 }
 
 func (tc *tcase) deltaTest() benchstat.DeltaTest {
+	if tc.noguard {
+		switch tc.test {
+		case "u":
+			return benchstat.UTest
+		case "t":
+			return benchstat.TTest
+		case "n":
+			return benchstat.NoDeltaTest
+		}
+		return nil
+	}
 	switch tc.test {
 	case "u":
 		return guard(benchstat.UTest)
@@ -436,6 +448,26 @@ func execCase(id int, tc *tcase) (out caseOut) {
 				crashed = fmt.Sprint(e)
 			}
 		}()
+		if tc.noguard {
+			// pre-flight with the guarded tests: if NaN got among the retained values the real
+			// U test would not return; keep the guard then (the judge reports `nan-retained`),
+			// otherwise run the real, unguarded tests.
+			tc.noguard = false
+			c0 := tc.collection()
+			c0.Tables()
+			safe := true
+			for _, m := range c0.Metrics {
+				for _, v := range m.RValues {
+					if math.IsNaN(v) {
+						safe = false
+					}
+				}
+			}
+			tc.noguard = safe
+			if !safe {
+				tc.tags["nan-retained-guarded"] = true
+			}
+		}
 		c := tc.collection()
 		o := newOracle()
 		t1 := c.Tables()
@@ -760,6 +792,50 @@ func genCase(r *hx.Rand) *tcase {
 	return tc
 }
 
+
+// genNonFinite: the family of NaN / ±Inf measurement values ("NaN", "Inf" are accepted by
+// strconv.ParseFloat).  Small collections, every value non-finite with probability ~1/3, the real
+// UTest / TTest unguarded: stats.MannWhitneyUTest does not terminate on a sample containing NaN,
+// so if NaN ever reached RValues the case would hit the per-case time limit and be reported as a
+// crash line.
+func genNonFinite(r *hx.Rand) *tcase {
+	tc := &tcase{tags: map[string]bool{"nonfinite": true}, noguard: true}
+	tc.alpha = hx.Pick(r, []float64{0, 0.05, 1})
+	tc.geo = r.Bool()
+	tc.order = hx.Pick(r, []string{"-", "-", "n", "d", "rd"})
+	tc.test = hx.Pick(r, []string{"-", "u", "u", "t", "t", "n"})
+	nc := hx.Pick(r, []int{1, 2, 2, 2, 3})
+	for i := 0; i < nc; i++ {
+		tc.cfgs = append(tc.cfgs, []string{"old", "new", "third"}[i])
+	}
+	nb := 1 + r.Intn(3)
+	texts := []string{"NaN", "nan", "+Inf", "-Inf", "Inf", "inf", "-inf", "Infinity", "1e999", "-1e999"}
+	for ci := range tc.cfgs {
+		for b := 0; b < nb; b++ {
+			name := fmt.Sprintf("BenchmarkN%d", b)
+			reps := 1 + r.Intn(9)
+			density := hx.Pick(r, []int{1, 3, 3, 6})
+			for k := 0; k < reps; k++ {
+				var sb strings.Builder
+				sb.WriteString(name + " 1")
+				for _, u := range []string{"ns/op", "MB/s"}[:1+r.Intn(2)] {
+					v := float64(10+r.Intn(5)) * float64(1+ci)
+					if r.Chance(1, 10) {
+						v *= 7
+					}
+					if r.Chance(1, density) {
+						sb.WriteString(" " + hx.Pick(r, texts) + " " + u)
+					} else {
+						sb.WriteString(" " + strconv.FormatFloat(v, 'f', -1, 64) + " " + u)
+					}
+				}
+				tc.results = append(tc.results, result{cfg: ci, content: sb.String()})
+			}
+		}
+	}
+	return tc
+}
+
 // fixed cases: the F9 witness of DESIGN.md section 5 and a few hand-written shapes.
 func fixedCases() []*tcase {
 	mk := func(cfgs []string, lines [][]string) *tcase {
@@ -784,6 +860,24 @@ func fixedCases() []*tcase {
 		{"BenchmarkP 1 0 allocs/op 4 ns/op", "BenchmarkQ 1 4 allocs/op 5 ns/op", "BenchmarkR 1 9 allocs/op 7 ns/op"}})
 	g.geo = true
 	out = append(out, g)
+	// the C11 witness shape {1,NaN} vs {2,3} and friends, through the collection (real UTest, unguarded)
+	for _, w := range [][][]string{
+		{{"BenchmarkX 1 1 ns/op", "BenchmarkX 1 NaN ns/op"}, {"BenchmarkX 1 2 ns/op", "BenchmarkX 1 3 ns/op"}},
+		{{"BenchmarkX 1 NaN ns/op"}, {"BenchmarkX 1 2 ns/op"}},
+		{{"BenchmarkX 1 1 ns/op", "BenchmarkX 1 2 ns/op", "BenchmarkX 1 +Inf ns/op"}, {"BenchmarkX 1 2 ns/op", "BenchmarkX 1 3 ns/op", "BenchmarkX 1 -Inf ns/op"}},
+		{{"BenchmarkX 1 1 ns/op", "BenchmarkX 1 2 ns/op", "BenchmarkX 1 3 ns/op", "BenchmarkX 1 4 ns/op", "BenchmarkX 1 5 ns/op", "BenchmarkX 1 6 ns/op", "BenchmarkX 1 7 ns/op", "BenchmarkX 1 8 ns/op", "BenchmarkX 1 9 ns/op", "BenchmarkX 1 NaN ns/op"},
+			{"BenchmarkX 1 2 ns/op", "BenchmarkX 1 3 ns/op", "BenchmarkX 1 4 ns/op", "BenchmarkX 1 5 ns/op", "BenchmarkX 1 NaN ns/op", "BenchmarkX 1 NaN ns/op"}},
+		{{"BenchmarkX 1 Inf ns/op", "BenchmarkX 1 Inf ns/op"}, {"BenchmarkX 1 Inf ns/op", "BenchmarkX 1 1 ns/op"}},
+	} {
+		for _, test := range []string{"-", "t"} {
+			tc := mk([]string{"old", "new"}, w)
+			tc.test = test
+			tc.noguard = true
+			tc.geo = true
+			tc.tags["nonfinite"] = true
+			out = append(out, tc)
+		}
+	}
 	return out
 }
 
@@ -798,6 +892,15 @@ func main() {
 	r := hx.NewRand(17)
 	id := 0
 	for _, tc := range fixedCases() {
+		if id%nshards == shard && id >= resume {
+			runCase(id, tc)
+		}
+		id++
+	}
+	nn := hx.N(60, 1200)
+	rn := hx.NewRand(1717)
+	for i := 0; i < nn; i++ {
+		tc := genNonFinite(rn)
 		if id%nshards == shard && id >= resume {
 			runCase(id, tc)
 		}
